@@ -20,7 +20,8 @@ round-3 review asked for (all about the same `step`, lifted to `stepX` = `step` 
 * `C04_attach_before_start_partial` + `C04_attach_before_start_counterexample` — the literal clause "a whitelist can only be
   attached … BEFORE the mint start" fails at creation of a vending minter with `start_time = now` (the factory / `instantiate`
   check is `now > start ⇒ error`): the whitelist is attached AT the start instant. What holds: strictly before for
-  `SetWhitelist` and for open editions, `now ≤ start` for creation, never an active whitelist.
+  `SetWhitelist` and for open editions, `now ≤ start` for creation, never an active whitelist. Recorded as an observation
+  (DESIGN 13.3), not a finding.
 -/
 namespace LP
 namespace SaleWindow
